@@ -159,6 +159,7 @@ def run(job, seed):
     if job['space'] == 'S3':
         return run_validator(acc, P, job, 'abc'[:b['vnames']])
     if job['space'] == 'S4':
+        run_falsy_names(acc, P)
         return run_updates(acc, P)
     names = 'abcd'[:b['names']]
     m = menu(names)
@@ -240,6 +241,61 @@ def run(job, seed):
             evaluate_all(acc, enf, rules, case)
     acc.sample('S1', rules)
     return acc.result()
+
+
+def run_falsy_names(acc, P):
+    """Rule names that are falsy as Python values: the empty string, and the
+    keys 0 / false a YAML file can hold."""
+    import itertools
+    bodies = ['@', 'rule:', 'not rule:', 'rule:n', 'rule:zz',
+              'role:x or rule:', 'rule:n and rule:zz']
+    for b0, bn in itertools.product(bodies, repeat=2):
+        rules = {'': b0, 'n': bn}
+        undefined, cyc = graph_problem(rules)
+        enf = world.bare_enforcer()
+        world.set_rules(enf, rules)
+        acc.case('S4', True)
+        acc.ev()
+        try:
+            got = enf.check_rules()
+        except Exception as e:
+            got = 'raises %s' % type(e).__name__
+        try:
+            enf.check_rules(raise_on_violation=True)
+            raised = False
+        except P.InvalidDefinitionError:
+            raised = True
+        except Exception as e:
+            raised = 'raises %s' % type(e).__name__
+        problem = undefined or cyc
+        if got != (not problem) or raised != problem:
+            acc.violation(
+                'S4|empty-name|%s' % ('missed' if problem else 'false-alarm'),
+                'rules %r: check_rules() returned %r, raise_on_violation '
+                '%s; undefined=%s cycle=%s' % (rules, got, raised, undefined,
+                                               cyc),
+                {'rules': rules}, not problem, got, 'S4')
+        acc.outcome('undefined=%s cycle=%s' % (undefined, cyc))
+    for key in (0, False):
+        for body, problem in (('rule:zz', True), ('@', False)):
+            enf = world.bare_enforcer()
+            enf.set_rules(P.Rules({key: P._parser.parse_rule(body),
+                                   'n': P._parser.parse_rule('@')}),
+                          use_conf=False)
+            acc.case('S4', True)
+            acc.ev()
+            try:
+                got = enf.check_rules()
+            except Exception as e:
+                got = 'raises %s' % type(e).__name__
+            if got != (not problem):
+                acc.violation('S4|falsy-key|%s' % ('missed' if problem else
+                                                   'false-alarm'),
+                              'rule named %r with body %r: check_rules() '
+                              'returned %r' % (key, body, got),
+                              {'key': repr(key), 'body': body}, not problem,
+                              got, 'S4')
+            acc.outcome('falsy-key-%s' % problem)
 
 
 def run_updates(acc, P):
